@@ -318,6 +318,13 @@ Lemma psrel_upd sp sc u cp cc : psrel sp sc -> pcrel cp cc -> psrel (upd_cell sp
 Proof. intros Hs Hc. unfold upd_cell. apply Forall2_app; [now apply F2_firstn|]. constructor; [exact Hc|now apply F2_skipn]. Qed.
 
 (* propagation through a hook chain: if it succeeds on the partial store it succeeds on the complete store *)
+Lemma summ_union_guard t n m e : summ n m -> union_guard H src t n e = Ok tt -> union_guard H src t m e = Ok tt.
+Proof.
+  intros Hs. unfold union_guard. destruct t; try discriminate.
+  destruct (union_selector H src (TUnion none0 opts) n) as [sel|] eqn:Hsel; [|discriminate].
+  rewrite (summ_union_selector H src _ n m sel Hs Hsel). cbn [bind]. auto.
+Qed.
+
 Lemma set_backing_psim : forall fuel sp sc u bp bc sp', psrel sp sc -> summ bp bc -> novirt bc ->
   set_backing fuel sp u bp = (Ok tt, sp') -> exists sc', set_backing fuel sc u bc = (Ok tt, sc') /\ psrel sp' sc'.
 Proof.
@@ -333,7 +340,9 @@ Proof.
     destruct (summ_view_set_rel (cty pc) (cback pp) (cback pc) (Z.of_N i) bp bc np Hnp Hkp Hb Hv) as (nc & Hvc & Hn). rewrite Hvc.
     apply (IH _ _ p np nc sp' Hs1 Hn); [exact (nv_view_set (cty pc) (cback pc) (Z.of_N i) bc nc Hnp Hnb Hvc)|exact Hop].
   - destruct (nth_error (upd_cell sp u _) p) as [pp|] eqn:Epp; [|discriminate].
-    destruct (psrel_nth _ _ p pp Hs1 Epp) as (pc & -> & Htp & _ & Hkp & Hnp & _).
+    destruct (psrel_nth _ _ p pp Hs1 Epp) as (pc & -> & Htp & _ & Hkp & Hnp & _). rewrite Htp in Hop.
+    destruct (union_guard H src (cty pc) (cback pp) (cty cc)) as [[]|] eqn:Hg; [|discriminate]. cbn [bind] in Hop.
+    rewrite (summ_union_guard (cty pc) (cback pp) (cback pc) (cty cc) Hkp Hg). cbn [bind].
     destruct (setter_g false (cback pp) 2 bp) as [np|] eqn:Hv; [|discriminate].
     destruct (summ_setter_g_rel false (cback pp) (cback pc) 2 bp bc np Hnp Hkp Hb Hv) as (nc & Hvc & Hn). rewrite Hvc.
     apply (IH _ _ p np nc sp' Hs1 Hn); [exact (novirt_setter_g H src false (cback pc) 2 bc nc Hnp Hnb Hvc)|exact Hop].
